@@ -2,6 +2,7 @@ package grpc
 
 import (
 	"context"
+	"encoding/json"
 	"errors"
 	"fmt"
 	"net"
@@ -391,6 +392,8 @@ func c38Enumerate(c *lib.Ctx, yield func(c38Case) bool) {
 			}
 		}
 	}
+	// ---- dial observation: what is really dialled (see c38_observe.go)
+	enumObserve(c, yield)
 }
 
 // ---- execution --------------------------------------------------------------------
@@ -641,6 +644,8 @@ func runC38Case(cs c38Case) (string, []lib.Problem) {
 			if res.allowed && fam != "" && judged {
 				bad("dialer", fam, "dial of %s (%s) was attempted: %s", destText(cs), fam, res.detail)
 			}
+		case "observe":
+			outcome = runObserveCase(cs, bad)
 		case "flow", "flow4":
 			// what the server does for one request: URL guard, then the transport
 			// dials the URL's host; flow4 adds a redirect back to the same URL.
@@ -727,6 +732,8 @@ func destText(cs c38Case) string {
 // every entry point (so "refused" is not the only thing the guards ever say),
 // and host names are really answered by the fake DNS.
 func c38Canaries(c *lib.Ctx) {
+	installFakeDNS()
+	observeCanary(c)
 	must := func(cs c38Case, wantOutcomeSub string) {
 		out, probs := runC38Case(cs)
 		if len(probs) > 0 || !strings.Contains(out, wantOutcomeSub) {
@@ -742,6 +749,9 @@ func c38Canaries(c *lib.Ctx) {
 	must(c38Case{Entry: "dialer", Truth: "8.8.8.8", Enc: "dotted", Host: "8.8.8.8", Kind: "literal", Target: "8.8.8.8:443"}, "not-internal:allowed")
 	must(c38Case{Entry: "dialer", Enc: "pub4", Host: c38Name, Kind: "dns-name", Target: c38Name + ":443", Name: c38Name, DNS: []dnsAnswer{pub}}, "not-internal:allowed")
 	must(c38Case{Entry: "dialer", Truth: "127.0.0.1", Enc: "dotted", Host: "127.0.0.1", Kind: "literal", Target: "127.0.0.1:80"}, "loopback:refused")
+	doc := dnsAnswer{IPs: []string{"192.0.2.10"}}
+	must(c38Case{Entry: "observe", Enc: "pub4>pub4>pub4", Host: c38Name, Kind: "dns-name", Deco: "https", Target: "https://" + c38Name + "/v1", Name: c38Name, DNS: []dnsAnswer{doc, doc, doc}}, "not-internal:allowed>not-internal:attempted1 q4")
+	must(c38Case{Entry: "observe", Enc: "pub>loopback>pub", Host: c38Name, Kind: "dns-name", Deco: "https", Target: "https://" + c38Name + "/v1", Name: c38Name, DNS: []dnsAnswer{doc, {IPs: []string{"127.0.0.1"}}, doc}}, "loopback:no-attempt")
 	must(c38Case{Entry: "flow", Enc: "pub4>pub4", Host: c38Name, Kind: "dns-name", Deco: "plain", Target: "http://" + c38Name + "/v1", Name: c38Name, DNS: []dnsAnswer{pub, pub}}, "not-internal:allowed>not-internal:allowed")
 }
 
@@ -753,25 +763,35 @@ func init() {
 			"(dotted; IPv4-mapped IPv6 dotted/hex/upper/expanded/zero-padded/zoned; IPv6 compressed/full/upper/zoned; short, octal, hex, 32-bit decimal/hex, trailing-dot and full-width forms, the latter being host names for Go and resolved by the environment as {unknown, inet_aton reading}) x entry points "+
 			"{URL guard, the client's CheckRedirect, the client's Transport.Proxy with a proxy configured, the client's Transport.DialContext, URL-guard-then-dial flow} x %d URL decorations (scheme, port, userinfo tricks, '@' in fragment/query, backslash, schemeless, unbracketed IPv6) x environment {default, opt-out=0, proxy configured for another host; opt-in=1 and dial-target-is-the-proxy recorded only}; "+
 			"host names x %d scripted DNS answers (each internal class, IPv4-mapped AAAA, mixed public+internal in both orders and across A/AAAA, NXDOMAIN, no data) served by an in-process fake DNS, and every pair of answers for the re-resolution flow guard->dial [thorough: every 4-sequence over 12 answers for guard->dial->redirect->dial]. "+
+			"Dial observation: the flow URL guard -> the client's Transport.DialContext with a live context and network tcp, with the /repo hook daisen2.VerifSetDialControl recording the resolved ip:port of every connection attempt and aborting it before connect(): host names x EVERY sequence of 3 answers (guard lookup, dial-time vetting lookup, every later lookup) over %d answers (one and two public addresses A+A and A+AAAA, each internal class, IPv4-mapped, mixed, NXDOMAIN, no data; public answers are documentation addresses), and every IP literal encoding through the same flow; every attempted destination must be non-internal AND an address of the vetting answer with the URL's port, and no attempt may follow a vetting answer containing an internal address; DNS queries per flow are recorded. "+
 			"Oracle: an independent byte-level CIDR classifier; a destination in a named class must be refused (a let-through shows as nil error / *net.OpError{Op:dial}); no dial can reach the network (cancelled context or unknown network). Each (destination, encoding, entry, decoration, environment) tuple is a distinct case.",
-			len(c38Addrs), len(c38Decos)+1, len(c38Answers)),
+			len(c38Addrs), len(c38Decos)+1, len(c38Answers), len(obsAnswers)),
 		Sharded:     true,
 		MinOutcomes: 40,
 		Assumptions: []string{
 			"the destination of a URL is the host net/url parses (guard and client share that parser); URLs whose RFC 3986 host differs from what net/url sees are recorded, not judged",
 			"any internal address among the resolved addresses makes the destination internal",
-			"the HTTP handlers' own call of the URL guard and a live end-to-end request through the client are not driven (they would need a real dial for public controls)",
+			"the HTTP handlers' own call of the URL guard and a live end-to-end request through the client are not driven",
+			"dial observation relies on the verif hook VerifSetDialControl aborting every attempt before connect(); a canary on a loopback listener owned by the check proves the hook is wired before the family runs, otherwise the family is disabled (internal error)",
 			"host names are resolved by Go's resolver against the fake DNS; the cgo/libc resolver path is represented by the {unknown, inet_aton} environment choice for numeric names",
 		},
 		Run: func(c *lib.Ctx) {
 			c38Canaries(c)
 			lib.Cases(c, func(yield func(c38Case) bool) { c38Enumerate(c, yield) }, runC38Case)
+			c.Add("observed_dial_flows", obsStats.flows)
+			c.Add("observed_dns_queries", obsStats.dnsQueries)
+			c.Add("observed_connection_attempts", obsStats.destinations)
+			c.Add("observed_flows_without_attempt", obsStats.dialsWithoutDestination)
 			for i, m := range c38Internal {
 				if i < 5 {
 					c.InternalError("%s", m)
 				}
 			}
 		},
-		Replay: lib.ReplayCases(runC38Case),
+		Replay: func(c *lib.Ctx, raw json.RawMessage) []lib.Problem {
+			installFakeDNS()
+			observeCanary(c)
+			return lib.ReplayCases(runC38Case)(c, raw)
+		},
 	})
 }
